@@ -23,6 +23,7 @@ ASSUMPTIONS = [
     "W with and without return_ordering need not be equal; -0.0 == 0",
     "statistical bounds: exact binomial tail 1e-12, |z| <= 8 (per-statistic false-alarm probability < 1e-12 for a correct generator)",
     "a weight drawn as exactly 0.0 inside a range containing 0 has probability 0 and is treated as 'no edge'",
+    "sizes / counts / integer bounds are generated as Python ints or signed numpy integers of 32 bits or more (DESIGN.md 8.7b)",
 ]
 RANGES = [(1, 1), (0.5, 2), (-2, -0.5), (-1, 1), (0, 0), (-3, -3),
           (1e-320, 1e-310), (-3e17, -1e17), (1e-300, 2e-300)]       # subnormal, huge and tiny weights are weights too
